@@ -370,3 +370,5 @@ _quick("C05", "C05_sweeploop", "one real round of the timeout sweeper loop LockD
 _quick("C06", "C06_sweeploop", "one real round of the expiry sweeper loop LockDB.checkExpried after the clock moved on by E+1 .. E+3 seconds at once (E in 1..4): the hold is ended with one EXPRIED by that round (symbolic executor only)", ["-witness", "0"], native=False)
 
 _quick("C14", "C14_textreply", "three LOCK / UNLOCK pairs on one text connection with COUNT in {1,2,7} and RCOUNT in {1,3,5} chosen per pair: every reply, parsed back with the real text parser, carries its own request's LockId, COUNT and RCOUNT (the first reply is built fresh, later ones reuse a cached result object)", ["-witness", "50"])
+
+_quick("C17", "C17_zerowaiter", "a holder and 1..2 queued requests of which the first, the second or both have Expried 0 (granted, such a request is answered SUCCED and holds nothing); the holder unlocks, the queue is served, whatever holds is released, wheel swept: LockedCount and WaitCount equal the census after each phase and are zero at the end", ["-witness", "1"])
